@@ -20,6 +20,15 @@ type c07ExprErr struct {
 	wrap  bool   // may be nested inside wrapper expressions
 	// additional diagnostics that may accompany the main one, all at the same anchor
 	also []string
+	// further REQUIRED diagnostics of the same expression anchored at other sub-nodes; off is the
+	// offset from the start of pre (overloaded functions report one error per overload)
+	extra []c07ExprExtra
+	sub   string // anchor kind / sub-node index, for coverage ("arg2", "rest4", "operand2" ...)
+}
+
+type c07ExprExtra struct {
+	msg string
+	off int
 }
 
 func (e *c07ExprErr) text() string { return e.pre + e.bad + e.post }
@@ -99,8 +108,65 @@ func c07ExprCatalogue() []c07ExprErr {
 		c07ExprErr{class: "sema-type", pre: "fromJSON(", bad: "'{'", post: ")", msg: "broken JSON string is passed to fromJSON()", abs: true, wrap: true},
 		c07ExprErr{class: "sema-type", bad: "github.sha[0]", msg: "index access operand must be type of object or array", abs: true, wrap: true},
 	)
+	// diagnostics anchored at a SUB-NODE: every anchor kind occurs at several sub-node indices so
+	// that an index slip (wrong argument / operand / index expression) is visible
+	notAssign := func(ord, from, to string) string {
+		return ord + " argument of function call is not assignable. \"" + from + "\" cannot be assigned to \"" + to + "\""
+	}
+	out = append(out,
+		// single-signature functions: each argument index
+		c07ExprErr{class: "sema-arg", sub: "startsWith/1", pre: "startsWith(", bad: "github.event", post: ", 'a')", msg: notAssign("1st", "object", "string"), abs: true, wrap: true},
+		c07ExprErr{class: "sema-arg", sub: "startsWith/2", pre: "startsWith('abc', ", bad: "github.event", post: ")", msg: notAssign("2nd", "object", "string"), abs: true, wrap: true},
+		c07ExprErr{class: "sema-arg", sub: "startsWith/2", pre: "startsWith(github.sha,", bad: "null", post: ")", msg: notAssign("2nd", "null", "string"), abs: true, wrap: true},
+		c07ExprErr{class: "sema-arg", sub: "endsWith/1", pre: "endsWith(", bad: "null", post: ", github.ref)", msg: notAssign("1st", "null", "string"), abs: true, wrap: true},
+		c07ExprErr{class: "sema-arg", sub: "endsWith/2", pre: "endsWith(github.ref,  ", bad: "github.event", post: " )", msg: notAssign("2nd", "object", "string"), abs: true, wrap: true},
+		c07ExprErr{class: "sema-arg", sub: "fromJSON/1", pre: "fromJSON( ", bad: "github.event", post: ")", msg: notAssign("1st", "object", "string"), abs: true, wrap: true},
+		c07ExprErr{class: "sema-arg", sub: "format/1", pre: "format(", bad: "github.event", post: ", 1, 2)", msg: notAssign("1st", "object", "string"), abs: true, wrap: true},
+		c07ExprErr{class: "sema-arg", sub: "format/1", pre: "format(  ", bad: "null", post: ", github.sha)", msg: notAssign("1st", "null", "string"), abs: true, wrap: true},
+		// overloaded functions: one error per overload, each anchored at its own argument
+		c07ExprErr{class: "sema-arg", sub: "contains/2", pre: "contains('abc', ", bad: "github.event", post: ")", msg: notAssign("2nd", "object", "string"), abs: true, wrap: true,
+			extra: []c07ExprExtra{{notAssign("1st", "string", "array<any>"), 9}}},
+		c07ExprErr{class: "sema-arg", sub: "contains/1", pre: "contains(", bad: "github.event", post: ", 'a')", msg: notAssign("1st", "object", "string"), abs: true, wrap: true, also: []string{notAssign("1st", "object", "array<any>")}},
+		c07ExprErr{class: "sema-arg", sub: "join/1", pre: "join(", bad: "github.sha", post: ", ',')", msg: notAssign("1st", "string", "array<string>"), abs: true, wrap: true,
+			extra: []c07ExprExtra{{"number of arguments is wrong. function \"join(array<string>) -> string\" takes 1 parameters but 2 arguments are given", 0}}},
+		c07ExprErr{class: "sema-arg", sub: "join/2", pre: "join(fromJSON('[]'),  ", bad: "github.event", post: ")", msg: notAssign("2nd", "object", "string"), abs: true, wrap: true,
+			extra: []c07ExprExtra{{"number of arguments is wrong. function \"join(array<string>) -> string\" takes 1 parameters but 2 arguments are given", 0}}},
+		// variadic hashFiles: declared parameter and rest arguments 2..5
+		c07ExprErr{class: "sema-arg", sub: "hashFiles/1", pre: "hashFiles(", bad: "github.event", post: ", 'b')", msg: notAssign("1st", "object", "string"), abs: true, wrap: true, tag: "hashfiles"},
+		c07ExprErr{class: "sema-arg", sub: "hashFiles/rest2", pre: "hashFiles('**/go.sum', ", bad: "true", post: ")", msg: notAssign("2nd", "bool", "string"), abs: true, wrap: true, tag: "hashfiles"},
+		c07ExprErr{class: "sema-arg", sub: "hashFiles/rest2", pre: "hashFiles('a',", bad: "null", post: ", 'c')", msg: notAssign("2nd", "null", "string"), abs: true, wrap: true, tag: "hashfiles"},
+		c07ExprErr{class: "sema-arg", sub: "hashFiles/rest3", pre: "hashFiles('a', 'bb', ", bad: "github.event", post: ")", msg: notAssign("3rd", "object", "string"), abs: true, wrap: true, tag: "hashfiles"},
+		c07ExprErr{class: "sema-arg", sub: "hashFiles/rest3", pre: "hashFiles(github.sha, github.ref,   ", bad: "null", post: ", 'd')", msg: notAssign("3rd", "null", "string"), abs: true, wrap: true, tag: "hashfiles"},
+		c07ExprErr{class: "sema-arg", sub: "hashFiles/rest4", pre: "hashFiles('a', 'b', 'ccc', ", bad: "fromJSON('[]')", post: ")", msg: "4th argument of function call is not assignable", abs: true, wrap: true, tag: "hashfiles"},
+		c07ExprErr{class: "sema-arg", sub: "hashFiles/rest4", pre: "hashFiles('a', 'b', 'c', ", bad: "true", post: ", 'e')", msg: notAssign("4th", "bool", "string"), abs: true, wrap: true, tag: "hashfiles"},
+		c07ExprErr{class: "sema-arg", sub: "hashFiles/rest5", pre: "hashFiles('a', 'b', 'c', 'dd', ", bad: "null", post: ")", msg: notAssign("5th", "null", "string"), abs: true, wrap: true, tag: "hashfiles"},
+		// errors inside an argument at argument index 2 / 3 (anchor: first token of the sub-expression)
+		c07ExprErr{class: "sema-sub", sub: "in-arg/2", pre: "format('{0}{1}', ", bad: "github.nope", post: ", 1)", msg: "property \"nope\" is not defined in object type", abs: true, wrap: true},
+		c07ExprErr{class: "sema-sub", sub: "in-arg/3", pre: "format('{0}{1}', 1, ", bad: "github.nope", post: ")", msg: "property \"nope\" is not defined in object type", abs: true, wrap: true},
+		c07ExprErr{class: "sema-sub", sub: "in-arg/2", pre: "contains('a', ", bad: "format('{0} {1}', 1)", post: ")", msg: "contains placeholder {1} but only 1 arguments are given", abs: true, wrap: true},
+		c07ExprErr{class: "sema-sub", sub: "in-arg/3", pre: "format('{0}{1}', 2, ", bad: "nofunc2()", post: ")", msg: "undefined function \"nofunc2\"", abs: true, wrap: true},
+		// second / third operand of a logical or comparison operator
+		c07ExprErr{class: "sema-sub", sub: "operand/2", pre: "github.sha && ", bad: "github.sha.foo", msg: "receiver of object dereference \"foo\" must be type of object", abs: true, wrap: true},
+		c07ExprErr{class: "sema-sub", sub: "operand/3", pre: "github.event.foo || github.ref || ", bad: "github.ref.bar", msg: "receiver of object dereference \"bar\" must be type of object", abs: true, wrap: true},
+		c07ExprErr{class: "sema-sub", sub: "operand/2", pre: "github.event.a.b && ", bad: "github.ref.*", msg: "receiver of object filtering `.*` must be type of array or object", abs: true, wrap: true},
+		c07ExprErr{class: "sema-sub", sub: "compare/1", bad: "github.sha == github", msg: "value cannot be compared to", abs: true},
+		c07ExprErr{class: "sema-sub", sub: "compare/2", pre: "true && ", bad: "github.event == github.sha", msg: "\"object\" value cannot be compared to \"string\" value", abs: true},
+		c07ExprErr{class: "sema-sub", sub: "compare/3", pre: "1 < 2 && 2 < 3 && ", bad: "1 == github", msg: "\"number\" value cannot be compared to", abs: true},
+		c07ExprErr{class: "sema-sub", sub: "compare/2", pre: "format('{0}', 1) != '' && (", bad: "github.event == github.sha", post: ")", msg: "\"object\" value cannot be compared to \"string\" value", abs: true},
+		c07ExprErr{class: "sema-sub", sub: "compare/in-arg", pre: "toJSON(", bad: "github.ref == github", post: ")", msg: "\"string\" value cannot be compared to", abs: true},
+		// index expression after a short and after a long receiver
+		c07ExprErr{class: "sema-sub", sub: "index/short", pre: "github[", bad: "github.event", post: "]", msg: "property access of object must be type of string but got \"object\"", abs: true, wrap: true},
+		c07ExprErr{class: "sema-sub", sub: "index/long", pre: "github.event[ ", bad: "github", post: "]", msg: "property access of object must be type of string but got", abs: true, wrap: true},
+	)
+	// untrusted input at argument / operand positions
+	out = append(out,
+		c07ExprErr{class: "untrusted", sub: "in-arg/2", pre: "format('{0}', ", bad: "github.event.issue.title", post: ")", msg: "\"github.event.issue.title\" is potentially untrusted", abs: true, tag: "script"},
+		c07ExprErr{class: "untrusted", sub: "in-arg/3", pre: "format('{0}{1}', 1, ", bad: "github.head_ref", post: ")", msg: "\"github.head_ref\" is potentially untrusted", abs: true, tag: "script"},
+		c07ExprErr{class: "untrusted", sub: "operand/2", pre: "true && ", bad: "github.event.comment.body", msg: "\"github.event.comment.body\" is potentially untrusted", abs: true, tag: "script"},
+	)
 	// availability
 	out = append(out,
+		c07ExprErr{class: "avail", sub: "in-arg/3", pre: "format('{0}{1}', 1, ", bad: "runner.os", post: ")", msg: "context \"runner\" is not allowed here", abs: true, tag: "norunner", wrap: true},
 		c07ExprErr{class: "avail", pre: "toJSON(", bad: "matrix", post: ")", msg: "context \"matrix\" is not allowed here", abs: true, tag: "nomatrix", wrap: true},
 		c07ExprErr{class: "avail", bad: "runner.os", msg: "context \"runner\" is not allowed here", abs: true, tag: "norunner", wrap: true},
 		c07ExprErr{class: "avail", pre: "1 == ", bad: "hashFiles('a')", msg: "calling function \"hashFiles\" is not allowed here", abs: true, tag: "nohashfiles", wrap: true},
